@@ -171,6 +171,26 @@ pub fn run_sweep(ctx: &Ctx, sw: &Sweep) -> Report {
         sweep_archive(sw, &mut rep, &mut model, &cfg, &ops, &b, &cuts, 1);
         return rep;
     }
+    // very wide archives: more than 1024 (and more than every count-like literal of the tree under test) files
+    // open together — started, fed, then ended; the undamaged archive and a few cuts (oracles only)
+    if sw.c05 && (!CONSTS.scaled || CONSTS.chunk == 40) {
+        let mut ns: Vec<usize> = vec![1100];
+        ns.extend(crate::gens::extra_bounds().iter().copied().filter(|x| *x >= 200 && *x <= 5000).map(|x| x + 76));
+        ns.sort(); ns.dedup();
+        for (k, n) in ns.into_iter().take(4).enumerate() {
+            let mut ops: Vec<Op> = (0..n).map(|i| Op::Start(format!("w{i}"))).collect();
+            for i in 0..n { ops.push(Op::Append { id: i as u64, size: 2, src: rng.bytes(2, 3) }); }
+            for i in (0..n).rev() { ops.push(Op::End(i as u64)); }
+            ops.push(Op::Finalize);
+            let cfg = Cfg::make(&mut rng, if k % 2 == 0 { 0 } else { L_COMP });
+            let b = build(&cfg, &ops);
+            let len = b.bytes.len();
+            let cuts = vec![len / 3, len / 2, len - 1, len];
+            rep.count("wide:open-together");
+            sweep_archive(sw, &mut rep, &mut model, &cfg, &ops, &b, &cuts, 0);
+            if rep.full() { return rep; }
+        }
+    }
     // regression corpus: D1 (final chunk shorter than a tag), D5/D6 (compressed, block edge)
     {
         let cfg = Cfg::make(&mut rng, L_ENC);
